@@ -82,6 +82,10 @@ CHECKS = {
    "bounded-exhaustive enumeration of exclude patterns on a real SQLite engine against a reference of the glob semantics, and of all subsets of skippable change kinds through the three real differs against the filtered unskipped diff",
    "(a) every pattern table[.child][type selector] from a 10 x 8 x 9 grid (thorough: every unordered pair of patterns) is applied through InspectSchema and InspectRealm on a real SQLite database with colliding names; every table, column, index, foreign key and check must be absent iff the reference (path.Match + selectors) says a pattern matches it. (b) for MySQL, PostgreSQL and SQLite differs a change set with every skippable kind at every nesting level is diffed under all 2^15 subsets of the policy kinds; the result must equal the unskipped diff with those kinds filtered out recursively (empty ModifyTable/ModifySchema vanish).",
    "The fate of indexes/foreign keys built on an excluded column is unspecified by the documentation and not judged; the CLI end-to-end slice is covered by the CLI-driven checks."),
+ "C20": ("exploration",
+   "stateless exploration with Go's map-iteration order turned into a harness-chosen environment answer (runtime overlay): deviation-bounded enumeration of iteration starts per call site, hash seeds per process, operation sequences and declaration-order permutations, all compared byte for byte with the default run",
+   "The check binary is linked against a Go runtime whose map-iteration start (per call site) and per-map hash seed are chosen by the harness. For 16 operations over the real planners/differs/codecs/formatters/directories the baseline output must be byte-identical under: every site shifted at once (14 values), one site at a time (bound 1; thorough: pairs of atlas sites, bound 2), worker processes with different hash seeds, and really random processes; planning the same change set twice in one process must give the same plan; every sequence of <=2 (thorough 3) operations must leave the last operation's output equal to its solo output in a fresh process; all permutations of top-level and index blocks (and reversed FK/check blocks) of an HCL source must give the same statements (as clause multisets) and the same SQLite catalogue.",
+   "True preemption races are not decided (operations share no synchronisation below operation granularity); the Go toolchain plus a one-function runtime patch is trusted."),
 }
 NOT_APPLICABLE = {}
 
